@@ -42,8 +42,9 @@ ASSUMPTIONS = [
     "handshakes exchanged with OTHER DEVICES on a shared bus are outside the quantifier (DESIGN §6 C12 note)",
     "stream (producer/consumer/signal) events happen between transactions (DESIGN appendix D)",
     "at most one endpoint per (number, direction) (EpDev.wellFormed)",
-    "out_cycle_refines_event/_run (C12Out.EvOk / histOk): a data packet follows a token accepted by this device; its clock "
-    "cycles are a transaction of C13's LegalHost acceptor (any byte spacing, any response delay >= 1, one response request "
+    "out_cycle_refines_event/_run (C12Out.EvOk / histOk): a data packet received while the token registers name the endpoint "
+    "follows a token accepted by this device and fits its FIFO; the clock cycles of every data packet are a transaction of "
+    "C13's LegalHost acceptor (any byte spacing, any response delay >= 1, one response request "
     "for a CRC-valid packet, none for a corrupted one); every packet on the bus, also for other endpoints, is no longer "
     "than this endpoint's max packet size (C13's acceptor; 8-byte SETUP packets: max_packet_size >= 8); the consumer "
     "reads between transactions and its last read is finalised one cycle later",
@@ -54,8 +55,8 @@ PARTIAL = ("foreign_transaction_invisible is proved on the event-level model (ti
            "status endpoint (sig_cycle_refines_event / _run, little-endian configuration), stream IN endpoint "
            "(in_cycle_refines_event / _run over C11's InXfer model with both packet memories; flush = discard = 0, producer "
            "bytes between transactions) and stream OUT endpoint (out_cycle_refines_event / _run over C13's model and "
-           "acceptor; OUT transactions addressed to another device on a shared bus and packets longer than the endpoint's "
-           "max packet size are outside its hypotheses); the refinement lemmas are per endpoint (slice machine control "
+           "acceptor, incl. OUT transactions addressed to another device; bus packets longer than the endpoint's max packet "
+           "size are outside its hypotheses); the refinement lemmas are per endpoint (slice machine control "
            "endpoint x endpoint), not yet composed into one cycle-level whole-device statement")
 
 I, O, P, S = U.PID_IN, U.PID_OUT, U.PID_PING, U.PID_SETUP
